@@ -37,7 +37,8 @@ theorem depth_eq_count (now : Int) (dts : List Dt) :
     a trigger time that is set (≠ 0) is unchanged. -/
 theorem trigger_write_once (st : St) (op : Op) (d : Dt) (hd : d ∈ st.dts) (ht : d.trigger ≠ 0) :
     ∃ d' ∈ (step st op).1.dts, d'.id = d.id ∧ d'.trigger = d.trigger := by
-  obtain ⟨d', hm, r⟩ := step_succ st op (stepRel_RTrig op.now) (allc_trivial _) (opT_trivial st op) d hd
+  obtain ⟨d', hm, r⟩ := step_succ st op (stepRel_RTrig op.now) (allc_trivial _) (opT_trivial st op)
+    (fun b _ _ d _ => rtrig_setq op.now b d) d hd
   exact ⟨d', hm, r.1, r.2.2.2.2.2.1 ht⟩
 
 /-- … and therefore over every operation sequence. -/
@@ -62,7 +63,8 @@ theorem trigger_only_in_window (st : St) (op : Op) (d' : Dt) (hd' : d' ∈ (step
         (d.trigger ≠ 0 → d'.trigger = d.trigger)) ∨
     (∃ p, op = .add p op.now ∧ d'.id = p.id ∧ p.start ≤ op.now ∧ op.now ≤ p.fin ∧
         (p.fixed = true → op.now < p.fin)) := by
-  rcases step_pred st op (stepRel_RTrig op.now) (allc_trivial _) (opT_trivial st op) d' hd' with ⟨d, hd, r⟩ | ⟨p, hop, r⟩
+  rcases step_pred st op (stepRel_RTrig op.now) (allc_trivial _) (opT_trivial st op)
+      (fun b _ _ d _ => rtrig_setq op.now b d) d' hd' with ⟨d, hd, r⟩ | ⟨p, hop, r⟩
   · left
     exact ⟨d, hd, r.1.symm, fun h0 => r.2.2.2.2.2.2 h0 ht, r.2.2.2.2.2.1⟩
   · right
@@ -101,10 +103,10 @@ theorem trigger_cascade_deep (k : Kind) (ops : List Op) (op : Op) (hw : WF 990 (
 /-- **end_once.**  Over every operation sequence from a state in which it holds (in particular the
     initial one): DowntimeEnd is requested at most once per downtime, never for a downtime that still
     exists; and the request made at removal is made exactly when the downtime had taken effect
-    (`IsTriggered`). -/
+    (`IsTriggered`) and the checkable is not paused. -/
 theorem end_once (ops : List Op) (st : St) (h0 : ∀ d ∈ st.dts, PEnd d) :
     (∀ d ∈ (run st ops).dts, d.ends ≤ 1 ∧ (d.removed = false → d.ends = 0)) ∧
-    (∀ now d, (removeDt now d).ends = d.ends + (if isTriggered now d then 1 else 0)) := by
+    (∀ now d, (removeDt now d).ends = d.ends + (if isTriggered now d && !d.quiet then 1 else 0)) := by
   constructor
   · induction ops generalizing st with
     | nil => exact h0
@@ -113,7 +115,8 @@ theorem end_once (ops : List Op) (st : St) (h0 : ∀ d ∈ st.dts, PEnd d) :
       rw [this]
       apply ih
       intro d' hd'
-      rcases step_pred st op (stepRel_REnd op.now) (allc_trivial _) (opT_trivial st op) d' hd' with ⟨d, hd, r⟩ | ⟨p, _, r⟩
+      rcases step_pred st op (stepRel_REnd op.now) (allc_trivial _) (opT_trivial st op)
+        (fun b _ _ d _ => rend_setq b d) d' hd' with ⟨d, hd, r⟩ | ⟨p, _, r⟩
       · have pd := h0 d hd
         cases hr : d.removed with
         | true => rw [r.1 hr]; exact pd
@@ -175,15 +178,25 @@ theorem start_once (k : Kind) (ops : List Op) (hw : WF 990 ops) :
 /-- **started_partial.**  Every downtime triggered by its own start (`Downtime::Start` of a fixed downtime
     inside its window, the start timer) or, being flexible, by `TriggerDowntime`, has requested
     DowntimeStart; what is excluded — exactly F-C05c — is a *fixed* downtime reached by `TriggerDowntime`
-    (non-OK result, trigger chain). -/
-theorem started_partial (t : Int) (d : Dt) :
+    (non-OK result, trigger chain).  (While the checkable is paused no notification is requested at
+    all: `paused_requests_nothing`.) -/
+theorem started_partial (t : Int) (d : Dt) (hq : d.quiet = false) :
     (startSelf d).starts = (if d.fixed then d.starts + 1 else d.starts + 1) ∧
     (d.fixed = false → (trigSelf t d).starts = d.starts + 1) ∧
     (d.fixed = true → (trigSelf t d).starts = d.starts) := by
   refine ⟨?_, ?_, ?_⟩
-  · cases hf : d.fixed <;> simp [startSelf, trigSelf, noteTriggered, markTriggered, noteStarted, hf]
+  · cases hf : d.fixed <;> simp [startSelf, trigSelf, noteTriggered, markTriggered, noteStarted, hf, hq]
+  · intro hf; simp [trigSelf, noteTriggered, markTriggered, hf, hq]
   · intro hf; simp [trigSelf, noteTriggered, markTriggered, hf]
-  · intro hf; simp [trigSelf, noteTriggered, markTriggered, hf]
+
+/-- **paused_requests_nothing.**  While the checkable is paused (`quiet`, the mirror of
+    `GetCheckable()->IsPaused()` kept equal to the checkable's flag on every existing downtime: `QInv`),
+    neither taking effect nor ending requests a notification; the signals still fire. -/
+theorem paused_requests_nothing (now t : Int) (d : Dt) (hq : d.quiet = true) :
+    (trigSelf t d).starts = d.starts ∧ (startSelf d).starts = d.starts ∧ (removeDt now d).ends = d.ends ∧
+    (trigSelf t d).trigEv = d.trigEv + 1 ∧ (removeDt now d).remEv = d.remEv + 1 := by
+  refine ⟨?_, ?_, ?_, ?_, ?_⟩ <;>
+    simp [trigSelf, startSelf, removeDt, noteTriggered, markTriggered, noteStarted, hq]
 
 /-- F-C05c: fixed downtime created before its window, non-OK result inside it before the start timer. -/
 def ceNeverStarted : List Op :=
